@@ -21,6 +21,14 @@ CLAIMS = {
          "shared words are modified only by single fetch_* or by compare_exchange loops that refresh the expected value and recompute the new word from it; no load->store through &self; every word update is confined to the element's bits and agrees with the non-atomic writer; the concurrent Elias-Fano builder writes through these setters with the sequential split. Memory-order effects other than atomicity are not modelled."),
  "C14": ("storage-tail discipline: backend accesses classified as full-word slice / masked last word / element-addressed; field-confinement law", "5 C14",
          "readers use only the first len*width/BITS words and mask the partial last word; bulk writers store whole words only below that bound and confine the last-word update to the live bits; single-element writes obey the confinement law; ones/zeros iterators return only positions < len. apply_in_place and copy are covered by C10's rules."),
+ "C07": ("typestate/ordering of the sharding calls, build/query edge agreement, result discipline over the structured HIR", "5 C07",
+         "try_seed sets up the shards from the actual key count, unconditionally, before the store is split, and every geometry consumer sees that state; the backend has num_vertices*num_shards cells; the builder addresses chunks through local_edge and queries through edge; assignment XORs the other two cells; errors and rewinds are never dropped. Solvability and the peelers are not decided."),
+ "C08": ("build/query hash agreement and prefill-before-solve ordering over the structured HIR", "5 C08",
+         "stored value and membership test apply the same mask/mix/edge-hash to the local signature; every membership entry point goes through contains_by_sig with the function's seed; random prefill precedes solving for filters only; silent dedup only for filters. The false-positive rate is statistical and not decided."),
+ "C17": ("error-discipline and must-pass-through flow rules over the structured HIR", "5 C17",
+         "every Result of lenders, store and rewinds in build_loop/try_seed is propagated; fatal errors are returned unchanged; duplicate retries are bounded by counters; both lenders are rewound on every path to the next attempt (no continue); par_solve returns Ok only when no worker reported an error. Termination of the probabilistic retry is not decided."),
+ "C20": ("must-pass-through flow rule (seek before Ok) and structural rules for the line reader", "5 C20",
+         "rewind() of every Seek-based lender seeks to the start on every Ok path and rebuilds its decoder afterwards; FromIntoIterator restarts from a pristine clone; the shared reader strips exactly LF then CR, maps EOF/errors, and all line lenders use it; Take::rewind is a known finding."),
  "C12": ("unsafe-site census with guard dominance and a table of construction invariants", "5 C12",
          "every unsafe call in a safe function is discharged by dominating facts or rests on a tabled construction invariant; unchecked-precondition functions are unsafe fn; iterator start protocol; universe guard. The construction invariants themselves are assumptions."),
 }
